@@ -299,20 +299,24 @@ pub fn worker_main(socket: &str) -> ! {
             }
         };
         let stop = Arc::new(AtomicBool::new(false));
+        // everybody starts together so that the observed steps overlap with the noise
+        let barrier = Arc::new(std::sync::Barrier::new(job.storm.len() + 1));
         let mut storm_handles = vec![];
         for seq in job.storm.iter().cloned() {
             let stop = stop.clone();
+            let barrier = barrier.clone();
             storm_handles.push(
                 std::thread::Builder::new()
                     .stack_size(STACK)
                     .spawn(move || {
+                        barrier.wait();
                         let mut n = 0usize;
-                        while !stop.load(Ordering::Relaxed) {
+                        loop {
                             for s in &seq {
                                 let _ = run_single(s);
                                 n += 1;
                             }
-                            if seq.is_empty() {
+                            if seq.is_empty() || stop.load(Ordering::Relaxed) {
                                 break;
                             }
                         }
@@ -326,6 +330,7 @@ pub fn worker_main(socket: &str) -> ! {
         let h = std::thread::Builder::new()
             .stack_size(STACK)
             .spawn(move || {
+                barrier.wait();
                 for s in &steps {
                     let r = run_single(s);
                     let mut txt = serde_json::to_string(&r).expect("ser");
